@@ -35,6 +35,7 @@ struct MacroArg {
   MacroArg *next;
   char *name;
   bool is_va_args;
+  bool is_omitted; // no variable argument at all (as opposed to an empty one)
   Token *tok;
 };
 
@@ -495,6 +496,7 @@ read_macro_args(Token **rest, Token *tok, MacroParam *params, char *va_args_name
     if (equal(tok, ")")) {
       arg = calloc(1, sizeof(MacroArg));
       arg->tok = new_eof(tok);
+      arg->is_omitted = true;
     } else {
       if (pp != params)
         tok = skip(tok, ",");
@@ -603,7 +605,7 @@ static Token *subst(Token *tok, MacroArg *args) {
     if (equal(tok, ",") && equal(tok->next, "##")) {
       MacroArg *arg = find_arg(args, tok->next->next);
       if (arg && arg->is_va_args) {
-        if (arg->tok->kind == TK_EOF) {
+        if (arg->is_omitted) {
           tok = tok->next->next->next;
         } else {
           cur = cur->next = copy_token(tok);
